@@ -50,9 +50,9 @@ GP gen_gp(Rng& g, bool valid_only)
 {
     GP p;
     static const double R0s[] = {1e-8, 1e-5, 1e-3, 0.1, 0.5};
-    static const double Rs[]  = {1.0, 1.3, 2.0};
+    static const double Rs[]  = {1.0, 1.3, 2.0, 1.3, 2.0, 1.0, 1.3, 130.0, 1300.0}; // incl. other length units (cm, mm)
     p.R0                      = R0s[g.below(5)];
-    p.Rmax                    = Rs[g.below(3)];
+    p.Rmax                    = Rs[g.below(9)];
     p.nr_exp                  = valid_only ? g.range(3, 6) : g.range(1, 7);
     p.ntheta_exp              = g.chance(0.35) ? -1 : (valid_only ? g.range(3, 7) : g.range(0, 8));
     p.aniso                   = g.chance(0.5) ? 0 : g.range(1, valid_only ? 3 : 6);
@@ -174,8 +174,8 @@ Value gen(uint64_t seed, const std::string& tier)
     }
     p["params"] = gp_json(gen_gp(g, mode >= 4));
     p["prev"]   = gp_json(gen_gp(g, true)); // the previous generation of the files
-    static const int precs[] = {18, 18, 18, 17, 16, 15, 15, 12};
-    p["precision"]  = precs[g.below(8)];
+    static const int precs[] = {18, 18, 18, 17, 16, 15, 15, 12, 20, 22, 25};
+    p["precision"]  = precs[g.below(11)];
     p["max_levels"] = g.chance(0.5) ? -1 : g.range(2, 6);
     Value f         = Value::object();
     static const char* wf[] = {"open_fail", "write_fail", "short_write", "crash_after_write", "crash_between_files"};
